@@ -129,11 +129,44 @@ def measure(case, wa):
     return S, Gg, Ga, nom
 
 
-def model(nom, wa):
+def omitted_term(nom, wa):
+    """The one first-order term of the DV <- PHI block that the library's matrix does not carry, derived (not fitted):
+
+    with DV = dv + phi x v, d(phi)/dt = -(Omega + rho) x phi - ..., d(dv)/dt = -phi x (C f) - (2 Omega + rho) x dv + ...
+    and C f = dv/dt - g + (2 Omega + rho) x v, the terms in phi are
+        phi x g - phi x (w2 x v) + w2 x (phi x v) - ((Omega + rho) x phi) x v,   w2 = 2 Omega + rho,
+    and by the Jacobi identity w2 x (phi x v) - phi x (w2 x v) = (w2 x phi) x v, so what is left besides phi x g is
+        (Omega x phi) x v = -[v x][Omega x] phi,            size |Omega||v| (2e-2 m/s^2 per rad at 300 m/s, 0.2 % of g).
+    The library has F[DV, PHI] = -[g x] only.  Measured on the lattice: |S - Phi| in this block is up to 2.1e-2 /s with
+    the library's matrix and <= 7e-6 /s with this term added (mc/props/c04.py history, DESIGN.md 11.9)."""
+    def skew(a):
+        return np.array([[0.0, -a[2], a[1]], [a[2], 0.0, -a[0]], [-a[1], a[0], 0.0]])
+    out = []
+    for p in nom.values:
+        lat = p[0] * geo.D2R
+        om = geo.RATE * np.array([np.cos(lat), 0.0, -np.sin(lat)])
+        d9 = np.zeros((9, 9))
+        d9[3:6, 6:9] = -skew(p[3:6]) @ skew(om)
+        if wa:
+            out.append(d9)
+        else:
+            # 7-state form: rows of the kept states, columns through the embedding x9 = E x7 (DV3 = VE phi1 - VN phi2)
+            E = np.zeros((9, 7))
+            for k, j in enumerate(IDX2):
+                E[j, k] = 1.0
+            E[5, IDX2.index(6)] = p[4]
+            E[5, IDX2.index(7)] = -p[3]
+            out.append(d9[IDX2, :] @ E)
+    return np.array(out)
+
+
+def model(nom, wa, with_omitted=False):
     """Exact propagation of the model along the nominal trajectory: product of augmented exponentials."""
     from pyins import error_model
     em = error_model.InsErrorModel(wa)
     F, Bg, Ba = em.system_matrices(nom)
+    if with_omitted:
+        F = F + omitted_term(nom, wa)
     n = F.shape[1]
     A = np.eye(n + 6)
     t = np.asarray(nom.index, dtype=float)
@@ -165,7 +198,10 @@ def neglected(case, wa):
     # below); an a-priori slack of |V|/R here would hide a wrong factor on rho (seeded change C04-transport-
     # rate-twice), so none is given
     N[DV, DV] = 0.0
-    N[DV, PH] = 3 * V * w                       # Coriolis / transport terms rotated by the attitude error
+    # DV <- PHI: the only first-order term besides -[g x] is (Omega x phi) x v (see omitted_term); the comparison is
+    # made against the model both without and with it, so no slack is needed here (3 |V| w, the former a-priori
+    # scale, was 5 times the omitted term and hid the seeded change C04-vn-ve-swapped-in-7-state-reduction)
+    N[DV, PH] = 0.0
     N[PH, DR] = 3 * (V * iR * iR * tl * tl + geo.RATE * iR * 0)   # d rho / d position
     N[PH, DV] = 0.0
     N[PH, PH] = 0.0
@@ -297,7 +333,11 @@ def run_case(case):
         floor = fl_state[:, None] / ex[None, :] * np.sqrt(len(nom))
         Tol = tau * N + tau ** 2 * (N @ Mabs + Mabs @ N) + DT * tau * (Mabs @ Mabs) + floor \
             + 1e-6 * np.abs(Phi)
-        E = np.abs(S - Phi)
+        # the library's matrix, or the library's matrix plus the omitted first-order term: a model that carries the
+        # term is as right as one that does not (entry by entry the closer of the two counts)
+        Phi2, Mg2, Ma2 = model(nom, wa, with_omitted=True)[:3]
+        E = np.minimum(np.abs(S - Phi), np.abs(S - Phi2))
+        stats['max_omitted_term_effect'] = max(stats.get('max_omitted_term_effect', 0.0), float(np.abs(Phi2 - Phi).max()))
         ratio = E / Tol
         stats['max_tight_S'] = max(stats.get('max_tight_S', 0.0), float(ratio.max()))
         if (E > Tol).any():
@@ -307,13 +347,13 @@ def run_case(case):
               'with_altitude=%s)' % (names[i], names[j], S[i, j], Phi[i, j], E[i, j], Tol[i, j], tau, wa))
         # forced responses to constant sensor errors
         Ncol = N.max(axis=1)
-        for G, M, B, nm, e_in in ((Gg, Mg, Bg, 'gyro', 1e-6), (Ga, Ma, Ba, 'accel', 1e-4)):
+        for G, M, M2, B, nm, e_in in ((Gg, Mg, Mg2, Bg, 'gyro', 1e-6), (Ga, Ma, Ma2, Ba, 'accel', 1e-4)):
             Babs = np.abs(B).max(axis=0)
             # the forced response is int Phi(tau - s) B ds: the state tolerance acts on |B| for at most tau,
             # plus the integrator's own O(dt) discretisation of the forcing
             TolG = tau * (Tol @ Babs) + DT * tau * (Mabs @ Babs) + DT * Babs \
                 + fl_state[:, None] / e_in * np.sqrt(len(nom)) + 1e-6 * np.abs(M)
-            EG = np.abs(G - M)
+            EG = np.minimum(np.abs(G - M), np.abs(G - M2))
             r = EG / TolG
             stats['max_tight_' + nm] = max(stats.get('max_tight_' + nm, 0.0), float(r.max()))
             if (EG > TolG).any():
